@@ -34,6 +34,8 @@ def cases(tier, seed):
         yield {"fam": "paircode", "i": i}
     for i in range(32 if tier == "quick" else 320):
         yield {"fam": "neartie", "i": i}
+    for i in range(36 if tier == "quick" else 360):
+        yield {"fam": "manycomp", "i": i}
 
 
 def setup(ctx):
@@ -93,6 +95,8 @@ def run(case, ctx):
     cfg = {"input": it, "backend": [None, "cc3d", "scipy"][i % 3], "matcher": None if it == "MATCHED_INSTANCE" else dict(mk, metric=metric, thr=thr)}
     if fam == "wrap":
         return wrap_case(ctx, i, r, cfg)
+    if fam == "manycomp":
+        return many_components(ctx, i, r)
     if fam == "neartie":
         p2, r2 = gen.near_tie_pair(ctx.seed, i)
         cfg = dict(cfg, input="UNMATCHED_INSTANCE", matcher={"kind": ["naive", "merge"][i % 2], "metric": "IOU", "thr": 0.3, "m2o": bool(i % 4 == 2)}, metrics=["DSC", "IOU", "RVD"], **{"global": ["DSC"]})
@@ -179,6 +183,36 @@ def run(case, ctx):
             ctx.nontrivial(gen.arr_key(pred, refa), kind, np.dtype(dtype).name, cfg)
     if i % 60 == 0:
         ctx.sample({"input": it, "pred": pred if pred.size < 40 else "(%s)" % (pred.shape,), "cfg": cfg, "tp": base["tp"]})
+
+
+def many_components(ctx, i, r):
+    """semantic maps with about 256 (or more) connected components on one or both sides and small class values: the
+    class value and the dtype of the input must not matter (component numbering vs. class-value dtype)"""
+    n_ref = int([254, 255, 256, 257, 300, 3][i % 6])
+    n_pred = int([3, 256, 255, 300, 257, 258][i % 6])
+    n = 2 * max(n_ref, n_pred) + 4
+    base_r = np.zeros(n, dtype=np.int64)
+    base_p = np.zeros(n, dtype=np.int64)
+    base_r[1 : 2 * n_ref : 2] = 1
+    base_p[1 : 2 * n_pred : 2] = 1
+    if i % 2:
+        base_r, base_p = np.stack([base_r, base_r * 0, base_r]), np.stack([base_p, base_p * 0, base_p * 0])
+    cfg = {"input": "SEMANTIC", "backend": [None, "cc3d", "scipy"][(i // 2) % 3], "matcher": {"kind": "naive", "metric": "IOU", "thr": 0.5, "m2o": False}}
+    base = meta.run(cfg, base_p.astype(np.uint8), base_r.astype(np.uint8))
+    ctx.count("evaluations")
+    for val, dtype in ((1, np.int64), (200, np.uint8), (300, np.uint16), (300, np.int32), (70000, np.uint32), (255, np.int16)):
+        t = meta.run(cfg, (base_p * val).astype(dtype), (base_r * val).astype(dtype))
+        ctx.count("evaluations")
+        ctx.count("f:C09.many_components")
+        feats = {"input": "SEMANTIC", "kind": "many_components", "dtype": np.dtype(dtype).name}
+        ok = judge(ctx, base, t, {"n_ref_components": n_ref * (2 if i % 2 else 1), "n_pred_components": n_pred, "cfg": cfg, "class_value": val, "dtype": np.dtype(dtype).name}, feats)
+        if ok:
+            ctx.nontrivial("manycomp", i, val, np.dtype(dtype).name)
+    # and the counts themselves (the base run could be wrong in the same way as every variant)
+    exp_ref, exp_pred = n_ref * (2 if i % 2 else 1), n_pred
+    if "ERR" not in base and (base["num_ref_instances"] != exp_ref or base["num_pred_instances"] != exp_pred):
+        ctx.viol("result_changed_by_relabelling_or_dtype", {"cfg": cfg, "expected_instances": [exp_ref, exp_pred], "reported": [base["num_ref_instances"], base["num_pred_instances"]]},
+                 features={"input": "SEMANTIC", "kind": "many_components", "key": "num_instances"})
 
 
 def wrap_case(ctx, i, r, cfg):
